@@ -111,16 +111,24 @@ func cursorExec(p *sut.Proc, a Action) Out {
 		pos := aStr(a, "pos")
 		sql := "FETCH " + pos
 		viaVar := false
+		// +-1000000000 in an action stands for the largest / smallest integer csvq has (beyond TLC's own integers; the
+		// clamped pointer is the same)
+		num := fmt.Sprint(aInt(a, "n"))
+		if aInt(a, "n") == 1000000000 {
+			num = "9223372036854775807"
+		} else if aInt(a, "n") == -1000000000 {
+			num = "-9223372036854775807"
+		}
 		if pos == "ABSOLUTE" || pos == "RELATIVE" {
 			// every other time the position is a stored integer (a variable), not a literal: FETCH must only read it
 			cnt, _ := p.User["fetches"].(int)
 			p.User["fetches"] = cnt + 1
 			if cnt%2 == 1 {
 				viaVar = true
-				p.Exec(fmt.Sprintf("@p := %d;", aInt(a, "n")))
+				p.Exec("@p := " + num + ";")
 				sql += " @p"
 			} else {
-				sql += fmt.Sprintf(" %d", aInt(a, "n"))
+				sql += " " + num
 			}
 		}
 		sql += " " + c + " INTO @a, @b;"
@@ -130,7 +138,7 @@ func cursorExec(p *sut.Proc, a Action) Out {
 		if viaVar {
 			// some further integer evaluations (a recycled object would be handed out now), then the variable again
 			r0 := p.Exec("@spare := 41 + 1; @spare := 1000 + 7; PRINT @p;")
-			if got := printed(r0.Out); len(got) != 1 || got[0] != fmt.Sprint(aInt(a, "n")) {
+			if got := printed(r0.Out); len(got) != 1 || got[0] != num {
 				return Out{K: "val", Vals: []string{"position-variable-changed-to:" + strings.Join(got, ",")}}
 			}
 		}
@@ -265,7 +273,7 @@ func cursorRandom(r *core.Run, k int) (Action, []Action) {
 			} else if pos == "RELATIVE" {
 				off = rng.Intn(9) - 4
 				if rng.Intn(6) == 0 {
-					off = []int{-100000, 100000, -nrows, nrows}[rng.Intn(4)]
+					off = []int{-100000, 100000, -nrows, nrows, 1000000000, -1000000000}[rng.Intn(6)]
 				}
 			}
 			acts = append(acts, cursorA("fetch", c, "", pos, off, 0, 0))
